@@ -44,7 +44,7 @@ func c17Source(k int, lv int) map[string]string {
 	}[k]
 	tag += sig
 	typ := "type T struct {\n\tX int\n\tH func() int\n}\n\n"
-	vars := fmt.Sprintf("var Counter int\nvar Base int = %d\nvar Inst *T\nvar BM func() int\nvar BM1 func(int) int\nvar BMV func(int, ...int) int\nvar Any any\nvar Sh Shape\nvar Err error\n\ntype Shape interface {\n\tM() int\n}\n\n", 100+k)
+	vars := fmt.Sprintf("var Counter int\nvar Base int = %d\nvar Zeroed int = 0\nvar ZeroedF float64 = 0\nvar Inst *T\nvar BM func() int\nvar BM1 func(int) int\nvar BMV func(int, ...int) int\nvar Any any\nvar Sh Shape\nvar Err error\n\ntype Shape interface {\n\tM() int\n}\n\n", 100+k)
 	rest := `func Bump() int {
 	Counter++
 	return Counter
@@ -52,7 +52,16 @@ func c17Source(k int, lv int) map[string]string {
 
 func SetBase(v int) int {
 	Base = v
+	Zeroed = 7
+	ZeroedF = 2.5
 	return Base
+}
+
+func ReadZeroed() int {
+	if ZeroedF == 2.5 {
+		return Zeroed + 1000
+	}
+	return Zeroed
 }
 
 func ReadCounter() int { return Counter }
@@ -89,7 +98,11 @@ func CallMethod1() int { return Inst.M1(4) + Inst.MV(5, 6) - Inst.MV(7) }
 	if k >= 2 {
 		extra = fmt.Sprintf("\nfunc Extra() int { return %d * 100 }\n", k)
 	}
-	switch lv % 3 {
+	switch lv % 4 {
+	case 3: // the version-dependent function lives in an IMPORTED package; reloads go through the importer
+		utag := fmt.Sprintf("package u\n\nvar Loads int = %d\n\nfunc Tag() int {\n\tz := 0\n%s\t_ = z\n\treturn %d\n}\n", k, filler, k)
+		mainTag := "func Tag() int {\n\treturn u.Tag() + u.Loads - u.Loads\n}\n\n" + sig
+		return map[string]string{"u/u.go": utag, "main/main.go": "package main\n\nimport (\n\t\"errors\"\n\t\"u\"\n)\n\n" + vars + typ + mainTag + meth + rest + extra}
 	case 0:
 		return map[string]string{"main/main.go": "package main\n\nimport \"errors\"\n\n" + vars + typ + tag + meth + rest + extra}
 	case 1: // different declaration order
@@ -105,8 +118,8 @@ func c17Replay(c *Ctx, hist []reloadStep, lv int) {
 	var fv, hostBM goat.Value
 	haveHostBM := false
 	fail := func(i int, what string) {
-		c.violate(hashKey(fmt.Sprint(hist, lv%3)), fmt.Sprintf("reload history %v (layout %d): step %d %s: %s", histText(hist), lv%3, i+1, hist[i].Op, what),
-			map[string]any{"history": hist, "layout": lv % 3, "failed_step": i + 1, "sources": map[string]any{"v1": c17Source(1, lv), "v2": c17Source(2, lv), "v3": c17Source(3, lv)}})
+		c.violate(hashKey(fmt.Sprint(hist, lv%4)), fmt.Sprintf("reload history %v (layout %d): step %d %s: %s", histText(hist), lv%4, i+1, hist[i].Op, what),
+			map[string]any{"history": hist, "layout": lv % 4, "failed_step": i + 1, "sources": map[string]any{"v1": c17Source(1, lv), "v2": c17Source(2, lv), "v3": c17Source(3, lv)}})
 	}
 	call1 := func(name string, args ...goat.Value) (int, error) {
 		goat.VerifSetBudget(100000)
@@ -216,6 +229,20 @@ func c17Replay(c *Ctx, hist []reloadStep, lv int) {
 				return
 			}
 			if err == nil {
+				// the variables initialised with the literal 0 are re-initialised by a load like any other:
+				// they hold 7 / 2.5 only while Base still holds the value SetBase gave it
+				var z int
+				z, err = call1("main.ReadZeroed")
+				wantZ := 0
+				if st.Want == 999 {
+					wantZ = 1007
+				}
+				if err == nil && z != wantZ {
+					fail(i, fmt.Sprintf("the variables declared with initialiser 0 read %d, want %d", z, wantZ))
+					return
+				}
+			}
+			if err == nil {
 				got, err = call1("main.ReadBase")
 			}
 		}
@@ -244,7 +271,7 @@ func histText(h []reloadStep) string {
 }
 
 func checkC17(c *Ctx) {
-	c.Rule = "histories = every sequence of <= L steps (L = 5 quick, 6 thorough) that Reload.tla allows over load(1..3), call direct / through a host-held function value / through a struct field / method / bound method / version>=2 function, the three captures, bump, setbase, read - each replayed on one long-lived VM (three source layouts in turn); plus TLC-simulated histories of length 40; distinct_nontrivial = histories with at least two loads and one captured call path"
+	c.Rule = "histories = every sequence of <= L steps (L = 5 quick, 6 thorough) that Reload.tla allows over load(1..3), call direct / through a host-held function value / through a struct field / method / bound method / version>=2 function, the three captures, bump, setbase, read - each replayed on one long-lived VM (four source layouts in turn, one of them with the version-dependent function in an imported package); plus TLC-simulated histories of length 40; distinct_nontrivial = histories with at least two loads and one captured call path"
 	c.Assumptions = []string{"versions differ in function and method bodies (different lengths), in the initial value of the initialised variable, and version >= 2 adds a function", "TLC evaluates Reload.tla as written"}
 	dir := c.specWorkDir("mc")
 	if !c.quick() {
